@@ -32,7 +32,9 @@ Inv ==
     \A o \in Modes :
       LET c == [ks |-> keys, vals |-> vals, hasvals |-> hasvals, o |-> o, nodes |-> nodes]
           m == TLCEval(Encode(c)) IN
-      \A q \in Strings :
+      \* the level table computed on the stored form is the Model's (Stat, C18)
+      /\ LevelsB(m) = ModelLevels(nodes)
+      /\ \A q \in Strings :
         /\ GetIDB(m, q) = ModelGetID(keys, nodes, o, q)
         /\ SearchIDB(m, q) = [x \in 1..3 |-> LET y == SearchIDm(keys, nodes, o, q)[x] IN IF y = -1 THEN -1 ELSE y - 1]
         \* scans need complete keys: on the stored form they yield the Model's keys, leaves and values
